@@ -6,6 +6,7 @@ dimension (3), bare / composed / reduced, n_ids in 1..3, individual-specific dat
 covariates; real chi.HierarchicalLogLikelihood / HierarchicalLogPosterior against
 gen.hier.ref_score (ref.populations + ref.errors + ref.toy)."""
 import itertools
+import re
 
 import numpy as np
 
@@ -118,9 +119,21 @@ def w_hier(case):
     g_names = hl.get_parameter_names(include_ids=True)
     g_ids = hl.get_id()
     if list(g_names) != e_names:
+        beh = 'names'
+        strip_dim = lambda n_: re.sub(r'Dim\. \d+', 'Dim. #', n_)
+        if case.get('rename_reset') and len(g_names) == len(e_names) and \
+                [strip_dim(n_) for n_ in g_names] == \
+                [strip_dim(n_) for n_ in e_names] and \
+                len(set(g_names)) < len(g_names):
+            # known finding F-C02-composed-dims-reset: only the numbering of the
+            # default dimension names differs, and names coincide
+            beh = 'dims_reset_numbering'
         viol.append({'sub': 'names', 'message': 'published names (with IDs) do not '
                      'describe the positions (%s)' % lab, 'expected': e_names,
-                     'observed': list(g_names), 'behaviour': 'names'})
+                     'observed': list(g_names), 'behaviour': beh})
+        if beh == 'dims_reset_numbering':
+            return {'transitions': ntr, 'outcome': tol.rnd([got, got2]),
+                    'violations': viol}
     if list(g_ids) != e_ids:
         viol.append({'sub': 'ids', 'message': 'published IDs do not describe the '
                      'positions (%s)' % lab, 'expected': e_ids,
@@ -172,6 +185,13 @@ def build(tier, seed):
         for spec in hier.structures(4, hier.KINDS6):
             for n_ids in (1, 2, 3):
                 cases.append(hier.make_case(spec, n_ids, seed, err='CM'))
+    # names reset to defaults after user-given names (n_ids = 3: heterogeneous
+    # blocks of several dimensions and individuals)
+    for spec in hier.structures(3, kinds):
+        if 'H' in popbuild.label(spec) or tier == 'thorough':
+            c = hier.make_case(spec, 3, seed)
+            c['rename_reset'] = True
+            cases.append(c)
     # reduced population models: every subset of <= 2 fixed top parameters
     red = []
     bases = [rp.Comp([rp.G(1), rp.P(1), rp.LN(1, False)]),
@@ -181,7 +201,6 @@ def build(tier, seed):
              rp.G(3), rp.Comp([rp.P(2), rp.TG(1)])]
     if tier == 'quick':
         bases = bases[:4]
-    from ..gen import popbuild
     for base in bases:
         for n_ids in range(1, max_ids + 1):
             n = rp.n_top(base, n_ids)
@@ -228,6 +247,15 @@ def build(tier, seed):
         c = hier.make_case(spec, 2, seed)
         c['int_vec'] = True
         intc.append(c)
+    # a population parameter fixed at exactly 0 (means, log-means, pooled values,
+    # covariate coefficients) is fixed
+    for base in bases:
+        for n_ids in (1, 2):
+            names_b = popbuild.build(base, n_ids).get_parameter_names()
+            for i_, nm in enumerate(names_b):
+                if nm.lower().startswith(('mean', 'log mean', 'pooled')) or \
+                        'Cov.' in nm:
+                    red.append(hier.make_case(rp.Red(base, {i_: 0.0}), n_ids, seed))
     # ID handling: integer, float-with-.0 and string IDs
     idc = []
     for ids in ([1, 2, 3], [10.0, 2.0, 7.0], ['b', 'a', 'c'], [3, 'x', 1.0]):
